@@ -5,7 +5,7 @@ Mechanical extractor + contract splicer.
 Reads /repo/src/*.rs (the current working tree) and produces ONE Verus crate file in which every source
 file appears verbatim inside `pub mod <m> { use vstd::prelude::*; verus!{ ... } }`, with the ghost text
 of /verif/contracts/*.vspec spliced in at anchors.  Executable text is never edited except by the fixed
-normalisation rules N1..N7 below; every application of a rule is logged into the extraction report.
+normalisation rules N1..N12 below; every application of a rule is logged into the extraction report.
 
 Sidecar syntax (contracts/<module>.vspec); every record is
     @<kind> <args...>
@@ -27,6 +27,7 @@ kinds
     @uses                                               `use` lines put at the top of the module
     @fields <Struct>                                    body = the struct's field names; any difference => contract-stale (exit 2)
     @println <fn-path>                                  (superseded by @stdout; still accepted) N6 with a local ghost log
+    @dropprint <fn-path>                                N6c: println!/print! statements of that fn are dropped (its output is not tracked)
     @atexit <fn-path>                                   body = ghost text placed where the fn is left (end of body and every `return`)
     @stdout <Type>                                      N6/N8: stdout and stdin as linear ghost resources threaded through the methods of
                                                         <Type> that print or read (computed from the call graph on every run)
@@ -373,6 +374,33 @@ def normalise(mod: str, src: str, log: list) -> str:
         edits.append((m.start(), m.end(), "crate::stdspec::split_ws(%s)" % m.group(1)))
         log.append({"rule": "N7", "file": "src/%s.rs" % mod, "line": lineno(m.start()),
                     "what": "`%s.split_whitespace().collect()` -> `crate::stdspec::split_ws(%s)` (assumed: returns the uninterpreted token sequence ws_tokens)" % (m.group(1), m.group(1))})
+    # N9  X.split('C').collect()  ->  crate::stdspec::split_on(X, 'C')   (an external_body function whose body is that expression;
+    #     its contract says the pieces are split_spec(X@, 'C'), a recursive definition of splitting at every occurrence)
+    for m in re.finditer(r"\b([a-z_][a-z0-9_]*)\.split\(('(?:[^'\\]|\\.)')\)\.collect\(\)", src):
+        if masked[m.start():m.start() + len(m.group(1))] != m.group(1):
+            continue
+        edits.append((m.start(), m.end(), "crate::stdspec::split_on(%s, %s)" % (m.group(1), m.group(2))))
+        log.append({"rule": "N9", "file": "src/%s.rs" % mod, "line": lineno(m.start()),
+                    "what": "`%s.split(%s).collect()` -> `crate::stdspec::split_on(%s, %s)` (assumed: the pieces are split_spec of the text)" % (m.group(1), m.group(2), m.group(1), m.group(2))})
+    # N10 for (I, X) in E.iter().enumerate() {  ->  let mut I__n: usize = 0; for X in E.iter() { let I = I__n; I__n += 1;
+    #     (Enumerate has no specification in vstd; the counter is what enumerate() keeps)
+    for m in re.finditer(r"\bfor[ \t]+\(([a-z_][a-z0-9_]*),[ \t]*([a-z_][a-z0-9_]*)\)[ \t]+in[ \t]+([A-Za-z_][A-Za-z0-9_\.]*)\.iter\(\)\.enumerate\(\)[ \t]*\{", masked):
+        i_, x_, e_ = m.group(1), m.group(2), m.group(3)
+        edits.append((m.start(), m.end(), "let mut %s__n: usize = 0; for %s in %s.iter() { let %s = %s__n; %s__n += 1;" % (i_, x_, e_, i_, i_, i_)))
+        log.append({"rule": "N10", "file": "src/%s.rs" % mod, "line": lineno(m.start()),
+                    "what": "`for (%s, %s) in %s.iter().enumerate() {` -> `let mut %s__n: usize = 0; for %s in %s.iter() { let %s = %s__n; %s__n += 1;`" % (i_, x_, e_, i_, x_, e_, i_, i_, i_)})
+    # N11 &X[A..B] with literal bounds (string slicing by byte range)  ->  crate::stdspec::str_slice(X, A, B)   (external_body, body = that
+    #     expression; contract: for an all-ASCII prefix the byte range is the character range)
+    for m in re.finditer(r"&([a-z_][a-z0-9_]*)\[([0-9]+)\.\.([0-9]+)\]", masked):
+        edits.append((m.start(), m.end(), "crate::stdspec::str_slice(%s, %s, %s)" % (m.group(1), m.group(2), m.group(3))))
+        log.append({"rule": "N11", "file": "src/%s.rs" % mod, "line": lineno(m.start()),
+                    "what": "`&%s[%s..%s]` -> `crate::stdspec::str_slice(%s, %s, %s)` (assumed: byte range == character range on an ASCII prefix)" % (m.group(1), m.group(2), m.group(3), m.group(1), m.group(2), m.group(3))})
+    # N12 LHS /= K;  ->  LHS = LHS / K;   (compound division assignment on signed integers is outside the subset; same value, and the
+    #     left-hand side - field and index expressions without side effects - is evaluated twice instead of once)
+    for m in re.finditer(r"(?m)^([ \t]*)((?:self\.)?[a-z_][a-z0-9_\.]*(?:\[[a-z_][a-z0-9_]*\])*)[ \t]*/=[ \t]*([0-9]+);", masked):
+        edits.append((m.start(2), m.end(), "%s = %s / %s;" % (m.group(2), m.group(2), m.group(3))))
+        log.append({"rule": "N12", "file": "src/%s.rs" % mod, "line": lineno(m.start()),
+                    "what": "`%s /= %s;` -> `%s = %s / %s;`" % (m.group(2), m.group(3), m.group(2), m.group(2), m.group(3))})
     # D4 Debug derive on non-Copy structs
     for m in re.finditer(r"#\[derive\(Debug, Clone\)\]", masked):
         edits.append((m.start(), m.end(), "#[derive(Clone)]"))
@@ -673,6 +701,24 @@ def splice_module(mod: str, src: str, recs, report, havoc=(), variant="main"):
                     rs, _re = statement_bounds(masked, f, f.sig_end + rm.start())
                     edits.append((rs, rs, "\n" + body + "\n"))
             anchors.append({"kind": k, "anchor": "%s::%s#println(%d)" % (mod, rec.args[0], n_pr), "origin": rec.origin})
+        elif k == "dropprint":
+            # N6c: the println!/print! statements of this function are dropped from the verified text (its output is NOT on the
+            # stdout resource; said so in the evidence). For functions outside the type whose output is tracked.
+            f = fn_of(rec)
+            n_dp = 0
+            for pm in re.finditer(r"\b(println|print)!\s*\(", masked[f.sig_end:f.body_end]):
+                st = f.sig_end + pm.start()
+                cl = match_close(masked, f.sig_end + pm.end() - 1)
+                en = cl + 1
+                while masked[en].isspace():
+                    en += 1
+                if masked[en] != ";":
+                    raise ExtractError("anchor-lost %s! in expression position in %s" % (pm.group(1), rec.args[0]))
+                edits.append((st, en + 1, "proof { }"))
+                n_dp += 1
+                report["normalisations"].append({"rule": "N6c", "file": "src/%s.rs" % mod, "line": src.count("\n", 0, st) + 1,
+                                                 "what": "`%s!(..);` dropped from the verified text of %s (output of this function is not tracked)" % (pm.group(1), rec.args[0])})
+            anchors.append({"kind": k, "anchor": "%s::%s#dropprint(%d)" % (mod, rec.args[0], n_dp), "origin": rec.origin})
         elif k == "atexit":
             # ghost text placed where the function is left: in front of the closing brace of the body and of every `return`
             # (proof hints that do not depend on the shape of the body)
